@@ -6,6 +6,9 @@ use std::fs::{File, OpenOptions};
 use std::io;
 use std::path::{Path, PathBuf};
 
+#[cfg(luqing_studio_nervusdb_verif)]
+use nervusdb_api::verif_hooks as vh;
+
 #[cfg(unix)]
 use std::os::unix::fs::FileExt as _;
 #[cfg(windows)]
@@ -198,6 +201,10 @@ impl Pager {
     pub fn open(path: impl AsRef<Path>) -> Result<Self> {
         let path = path.as_ref().to_path_buf();
         let existed = path.exists();
+        #[cfg(luqing_studio_nervusdb_verif)]
+        if !existed {
+            vh::io(vh::IoKind::Create, &path, None, 0, &[])?;
+        }
         let file = OpenOptions::new()
             .read(true)
             .write(true)
@@ -208,6 +215,8 @@ impl Pager {
         if !existed || file.metadata()?.len() == 0 {
             let meta = Meta::new();
             let bitmap = Bitmap::new();
+            #[cfg(luqing_studio_nervusdb_verif)]
+            vh::io(vh::IoKind::SetLen, &path, None, (PAGE_SIZE * 2) as u64, &[])?;
             file.set_len((PAGE_SIZE * 2) as u64)?;
 
             let mut pager = Self {
@@ -275,15 +284,32 @@ impl Pager {
             }
         }
 
+        #[cfg(luqing_studio_nervusdb_verif)]
+        vh::io(vh::IoKind::Create, target_path, None, 0, &[])?;
         let out = OpenOptions::new()
             .write(true)
             .create_new(true)
             .truncate(false)
             .open(target_path)?;
 
+        #[cfg(luqing_studio_nervusdb_verif)]
+        {
+            vh::io(
+                vh::IoKind::SetLen,
+                target_path,
+                None,
+                new_next_page_id.saturating_mul(PAGE_SIZE as u64),
+                &[],
+            )?;
+        }
         out.set_len(new_next_page_id.saturating_mul(PAGE_SIZE as u64))?;
 
         let meta_page = meta.encode_page();
+        #[cfg(luqing_studio_nervusdb_verif)]
+        {
+            vh::io(vh::IoKind::Write, target_path, None, 0, &meta_page)?;
+            vh::io(vh::IoKind::Write, target_path, None, PAGE_SIZE as u64, &bitmap.data)?;
+        }
         write_page_raw(&out, META_PAGE_ID, &meta_page)?;
         write_page_raw(&out, BITMAP_PAGE_ID, &bitmap.data)?;
 
@@ -292,9 +318,13 @@ impl Pager {
                 continue;
             }
             let page = self.read_page(*p)?;
+            #[cfg(luqing_studio_nervusdb_verif)]
+            vh::io(vh::IoKind::Write, target_path, None, p.as_u64() * PAGE_SIZE as u64, &page)?;
             write_page_raw(&out, *p, &page)?;
         }
 
+        #[cfg(luqing_studio_nervusdb_verif)]
+        vh::io(vh::IoKind::Sync, target_path, None, 0, &[])?;
         out.sync_data()?;
 
         Ok(VacuumCopyStats {
@@ -400,6 +430,8 @@ impl Pager {
             return Err(Error::PageNotAllocated(page_id.as_u64()));
         }
 
+        #[cfg(luqing_studio_nervusdb_verif)]
+        vh::page_event(vh::PageEvent::Free, page_id.as_u64());
         self.bitmap.set_allocated(page_id, false);
         self.flush_meta_and_bitmap()?;
         Ok(())
@@ -422,11 +454,18 @@ impl Pager {
             return Err(Error::PageNotAllocated(page_id.as_u64()));
         }
 
+        #[cfg(luqing_studio_nervusdb_verif)]
+        {
+            vh::page_event(vh::PageEvent::Write, page_id.as_u64());
+            vh::io(vh::IoKind::Write, &self.path, None, page_id.as_u64() * PAGE_SIZE as u64, page)?;
+        }
         write_page_raw(&self.file, page_id, page)?;
         Ok(())
     }
 
     pub fn sync(&mut self) -> Result<()> {
+        #[cfg(luqing_studio_nervusdb_verif)]
+        vh::io(vh::IoKind::Sync, &self.path, None, 0, &[])?;
         self.file.sync_data()?;
         Ok(())
     }
@@ -439,12 +478,16 @@ impl Pager {
         }
 
         if !self.bitmap.is_allocated(page_id) {
+            #[cfg(luqing_studio_nervusdb_verif)]
+            vh::page_event(vh::PageEvent::Alloc, page_id.as_u64());
             self.bitmap.set_allocated(page_id, true);
         }
 
         let required_bytes = (page_id.as_u64() + 1) * PAGE_SIZE as u64;
         let current_len = self.file.metadata()?.len();
         if current_len < required_bytes {
+            #[cfg(luqing_studio_nervusdb_verif)]
+            vh::io(vh::IoKind::SetLen, &self.path, None, required_bytes, &[])?;
             self.file.set_len(required_bytes)?;
         }
 
@@ -460,10 +503,16 @@ impl Pager {
 
     fn flush_meta_and_bitmap(&mut self) -> Result<()> {
         let meta_page = self.meta.encode_page();
+        #[cfg(luqing_studio_nervusdb_verif)]
+        vh::io(vh::IoKind::Write, &self.path, None, 0, &meta_page)?;
         write_page_raw(&self.file, META_PAGE_ID, &meta_page)?;
+        #[cfg(luqing_studio_nervusdb_verif)]
+        vh::io(vh::IoKind::Write, &self.path, None, PAGE_SIZE as u64, &self.bitmap.data)?;
         write_page_raw(&self.file, BITMAP_PAGE_ID, &self.bitmap.data)?;
         // Ensure meta + bitmap durability. WAL replay can recover data pages, but
         // durable metadata reduces recovery work and avoids pathological re-scan.
+        #[cfg(luqing_studio_nervusdb_verif)]
+        vh::io(vh::IoKind::Sync, &self.path, None, 0, &[])?;
         self.file.sync_data()?;
         Ok(())
     }
